@@ -476,8 +476,8 @@ def run_check(prop: Prop, tier: str, seed: int) -> int:
             if line not in known_lines:
                 known_lines.append(line)
             return
-        key = (sig or msg)[:120]
-        if key in reported:
+        key = re.sub(r"\d+", "#", (sig or msg))[:80]      # one replay per kind of failure, at most 5 per run
+        if key in reported or len(reported) >= 5:
             return
         reported.add(key)
         case2, msg2 = shrink_oracle_failure(stream, case, msg)
